@@ -16,10 +16,10 @@ func init() { registry["C03"] = propC03 }
 func propC03() *Property {
 	return &Property{
 		ID:          "C03",
-		Explanation: "Static path, dominance and table rules on jtp.Get and its helpers. Decided: (R1) every return of jtp.Get is an error return, a cache hit, the forwarded result of the recursive redirect call, or a success return that is dominated — in this order — by the https scheme test, the dial, a checked parseStatusLine, a status whitelist within {200,201,202,203} on every path, a checked validateHeaders on the frame's own tolerated list, and a checked JSON decode into the very map that is returned, with the frame's own URL as source; (R2) redirects are bounded: the only recursion passes maxRedirects minus a positive constant under maxRedirects != 0, the budget is unsigned and constant at every external call site, and there is one dial and one request per frame; (R3) the redirect target is the Location header resolved against the frame's own URL, a missing Location is an error, and the redirect branch is entered only for 3xx; (R4) validateHeaders returns nil only after at least one Content-Type header matched the tolerated list and no Content-Type header failed to match; MediaType.Matches is an equality test against the list; (R5) the status line recogniser is anchored and captures exactly three digits; (R6) the cache is keyed by everything that shapes the request and never stores an outcome that depends on the remaining redirect budget. (R6, addition) the cache key contains link.String(), the complete URL, so URLs that differ in scheme or fragment never share an entry; (R7) every string given to a status/header recogniser or compared with the end-of-head marker is a constant or result #0 of (*bufio.Reader).ReadString('\\n') at a point where that call's error is known nil: fragments of over-long or truncated lines (ReadLine, ReadSlice, Scanner) are never parsed as header lines. (R8) every singleflight key in the module is uri.String() of the URL fetched inside the shared function. Not decided: that the header regexps recognise exactly the HTTP grammar, JSON decoding itself, LRU eviction.",
+		Explanation: "Static path, dominance and table rules on jtp.Get and its helpers. Decided: (R1) every return of jtp.Get is an error return, a cache hit, the forwarded result of the recursive redirect call, or a success return that is dominated — in this order — by the https scheme test, the dial, a checked parseStatusLine, a status whitelist within {200,201,202,203} on every path, a checked validateHeaders on the frame's own tolerated list, and a checked JSON decode into the very map that is returned, with the frame's own URL as source; (R2) redirects are bounded: the only recursion passes maxRedirects minus a positive constant under maxRedirects != 0, the budget is unsigned and constant at every external call site, and there is one dial and one request per frame; (R3) the redirect target is the Location header resolved against the frame's own URL, a missing Location is an error, and the redirect branch is entered only for 3xx; (R4) validateHeaders returns nil only after at least one Content-Type header matched the tolerated list and no Content-Type header failed to match; MediaType.Matches is an equality test against the list; (R5) the status line recogniser is anchored and captures exactly three digits; (R6) the cache is keyed by everything that shapes the request and never stores an outcome that depends on the remaining redirect budget. (R6, addition) the cache key contains link.String(), the complete URL, so URLs that differ in scheme or fragment never share an entry; (R7) every string given to a status/header recogniser or compared with the end-of-head marker is a constant or result #0 of (*bufio.Reader).ReadString('\\n') at a point where that call's error is known nil: fragments of over-long or truncated lines (ReadLine, ReadSlice, Scanner) are never parsed as header lines. (R8) every singleflight key in the module is uri.String() of the URL fetched inside the shared function. (R1, addition) the success return knows the decoded map to be non-nil: encoding/json decodes the body `null` into a nil map without an error. Not decided: that the header regexps recognise exactly the HTTP grammar, JSON decoding itself, LRU eviction.",
 		Assumptions: []string{
 			"regexp, encoding/json, net/url and lru behave as documented",
-			"a successful json.Decoder.Decode into *map[string]any yields a JSON object",
+			"a successful json.Decoder.Decode into a non-nil *map[string]any has read a JSON object (null leaves the map nil: checked)",
 		},
 		Rules: []Rule{
 			{ID: "C03.R1", Title: "every return of jtp.Get is classified; success passes all acceptance tests", Floor: 15, Run: c03R1},
@@ -433,6 +433,37 @@ func c03Success(c *Ctx, g *getShape, ret *ssa.Return) {
 		okDec = true
 	})
 	c.check(okDec, fname+"/success:decode", pos, fname, "dominated by a checked json Decode of the validated stream into the returned map", whyDec)
+	// (vii) a JSON object, not null: encoding/json decodes the body `null` into a
+	// nil map without an error, so the success return must know the map is not nil
+	okObj := false
+	if docAlloc != nil {
+		for _, f := range facts {
+			cmp, ok := f.Cmp()
+			if !ok {
+				continue
+			}
+			for _, side := range [][2]ssa.Value{{cmp.X, cmp.Y}, {cmp.Y, cmp.X}} {
+				ld, isLd := side[0].(*ssa.UnOp)
+				if !isLd || ld.Op != token.MUL || ld.X != ssa.Value(docAlloc) {
+					// len(map) > 0 / != 0 also excludes nil
+					if call, isCall := side[0].(*ssa.Call); isCall {
+						if bi, isB := call.Call.Value.(*ssa.Builtin); isB && bi.Name() == "len" {
+							if l2, ok2 := call.Call.Args[0].(*ssa.UnOp); ok2 && l2.Op == token.MUL && l2.X == ssa.Value(docAlloc) {
+								if k, isC := constInt(side[1]); isC && k == 0 && ((cmp.Op == token.NEQ) || (cmp.Op == token.GTR && side[0] == cmp.X) || (cmp.Op == token.LSS && side[0] == cmp.Y)) {
+									okObj = true
+								}
+							}
+						}
+					}
+					continue
+				}
+				if isNilConst(side[1]) && cmp.Op == token.NEQ {
+					okObj = true
+				}
+			}
+		}
+	}
+	c.check(okObj, fname+"/success:object", pos, fname, "dominated by a test that the decoded map is not nil (the body `null` decodes to a nil map without an error)", "a document can be returned without the decoded map being tested against nil: encoding/json decodes the body `null` into a nil map and reports no error, so a non-object body yields a (nil) document instead of an error")
 	// source is the frame's own URL
 	c.check(unwrapLoad(ret.Results[1]) == ssa.Value(g.link), fname+"/success:source", pos, fname, "the reported source is the frame's own URL", "the source returned with the document is not the URL this frame requested")
 }
